@@ -1432,8 +1432,8 @@ package mqtt
 //@ ensures r0 != nil && fresh(r0) && r0.ID == id && r0.Net.Listener == listener && r0.State.Inflight != nil && r0.State.Subscriptions != nil && r0.State.Subscriptions.internal != nil
 //@ ensures r0.ops != nil && r0.ops.options == s.Options && r0.ops.info == s.Info && r0.ops.hooks == s.hooks
 // the objects New() gives a server, which the restart path uses and never replaces
-// verif:def serverObjects(s *Server) bool = s != nil && s.Options != nil && s.Options.Capabilities != nil && s.Clients != nil && s.Clients.internal != nil && s.hooks != nil && s.Topics != nil && s.Topics.root != nil && s.Log != nil
-// verif:def serverObjectsKept(s *Server) bool = s.Options == old(s.Options) && s.Options.Capabilities == old(s.Options.Capabilities) && s.Clients == old(s.Clients) && s.Clients.internal == old(s.Clients.internal) && s.hooks == old(s.hooks) && s.Topics == old(s.Topics) && s.Topics.root == old(s.Topics.root) && s.Log == old(s.Log)
+// verif:def serverObjects(s *Server) bool = s != nil && s.Options != nil && s.Options.Capabilities != nil && s.Clients != nil && s.Clients.internal != nil && s.hooks != nil && s.Info != nil && s.Topics != nil && s.Topics.root != nil && s.Log != nil
+// verif:def serverObjectsKept(s *Server) bool = s.Options == old(s.Options) && s.Options.Capabilities == old(s.Options.Capabilities) && s.Clients == old(s.Clients) && s.Clients.internal == old(s.Clients.internal) && s.hooks == old(s.hooks) && s.Info == old(s.Info) && s.Topics == old(s.Topics) && s.Topics.root == old(s.Topics.root) && s.Log == old(s.Log)
 // verif:def restoredSession(cl *Client, c storage.Client) bool = cl != nil && cl.ID == c.ID && cl.Net.Listener == c.Listener && cl.Properties.Username == c.Username && (cl.Properties.Clean <==> c.Clean) && cl.Properties.ProtocolVersion == c.ProtocolVersion
 // verif:def restoredSessionProps(cl *Client, c storage.Client) bool = cl != nil && cl.Properties.Props.SessionExpiryInterval == c.Properties.SessionExpiryInterval && (cl.Properties.Props.SessionExpiryIntervalFlag <==> c.Properties.SessionExpiryIntervalFlag) && cl.Properties.Props.RequestProblemInfo == c.Properties.RequestProblemInfo && (cl.Properties.Props.RequestProblemInfoFlag <==> c.Properties.RequestProblemInfoFlag) && cl.Properties.Props.RequestResponseInfo == c.Properties.RequestResponseInfo && cl.Properties.Props.ReceiveMaximum == c.Properties.ReceiveMaximum && cl.Properties.Props.TopicAliasMaximum == c.Properties.TopicAliasMaximum && cl.Properties.Props.MaximumPacketSize == c.Properties.MaximumPacketSize
 // verif:def restoredWill(cl *Client, c storage.Client) bool = cl != nil && cl.Properties.Will.TopicName == c.Will.TopicName && cl.Properties.Will.Payload == c.Will.Payload && cl.Properties.Will.Qos == c.Will.Qos && (cl.Properties.Will.Retain <==> c.Will.Retain) && cl.Properties.Will.Flag == c.Will.Flag && cl.Properties.Will.WillDelayInterval == c.Will.WillDelayInterval
